@@ -75,6 +75,12 @@ func (n *WSNode) Close() { _ = n.server.Close() }
 func (n *WSNode) subscribe(ctx *rpctypes.Context, query string) (*coretypes.ResultSubscribe, error) {
 	n.mu.Lock()
 	defer n.mu.Unlock()
+	for _, s := range n.subs[query] {
+		if s.conn == ctx.WSConn {
+			// a client whose earlier unsubscribe request never arrived subscribes again: keep one delivery per event
+			return &coretypes.ResultSubscribe{}, nil
+		}
+	}
 	n.subs[query] = append(n.subs[query], wsSub{conn: ctx.WSConn, raw: ctx.JSONReq.ID})
 	return &coretypes.ResultSubscribe{}, nil
 }
